@@ -1,1 +1,143 @@
-//! Fault generators (DESIGN.md §3.4) — filled in with C02-C04.
+//! Fault generators (DESIGN.md §3.4): character-level tampering of token parts and structural
+//! re-encodings. All tokens are ASCII, so positions are byte positions.
+
+use crate::model::{b64d, b64e};
+use serde_json::{Map, Value};
+
+pub const B64URL: &str = "ABCDEFGHIJKLMNOPQRSTUVWXYZabcdefghijklmnopqrstuvwxyz0123456789-_";
+pub const EXTRA: [char; 5] = ['.', '~', '=', ' ', '"'];
+
+/// the 69-character substitution alphabet: base64url + { . ~ = space " }
+pub fn alphabet69() -> Vec<char> {
+    B64URL.chars().chain(EXTRA.iter().copied()).collect()
+}
+
+#[derive(Clone, Copy, Debug, PartialEq, Eq, Hash)]
+pub enum CharOp {
+    Sub(char),
+    Del,
+    Ins(char),
+}
+
+impl CharOp {
+    pub fn name(&self) -> &'static str {
+        match self {
+            CharOp::Sub(_) => "substitute",
+            CharOp::Del => "delete",
+            CharOp::Ins(_) => "insert",
+        }
+    }
+    pub fn code(&self) -> u64 {
+        match self {
+            CharOp::Sub(c) => 0x1000 + *c as u64,
+            CharOp::Del => 0x2000,
+            CharOp::Ins(c) => 0x3000 + *c as u64,
+        }
+    }
+}
+
+/// Apply `op` at byte position `pos` of the ASCII string `s`. Returns None when the result
+/// equals the input (same-character substitution) or the position is out of range.
+/// `pos == s.len()` is valid for insertions only (append).
+pub fn apply(s: &str, pos: usize, op: CharOp) -> Option<String> {
+    debug_assert!(s.is_ascii());
+    let b = s.as_bytes();
+    let mut out = Vec::with_capacity(b.len() + 1);
+    match op {
+        CharOp::Sub(c) => {
+            if pos >= b.len() || b[pos] == c as u8 {
+                return None;
+            }
+            out.extend_from_slice(&b[..pos]);
+            out.push(c as u8);
+            out.extend_from_slice(&b[pos + 1..]);
+        }
+        CharOp::Del => {
+            if pos >= b.len() {
+                return None;
+            }
+            out.extend_from_slice(&b[..pos]);
+            out.extend_from_slice(&b[pos + 1..]);
+        }
+        CharOp::Ins(c) => {
+            if pos > b.len() {
+                return None;
+            }
+            out.extend_from_slice(&b[..pos]);
+            out.push(c as u8);
+            out.extend_from_slice(&b[pos..]);
+        }
+    }
+    let o = String::from_utf8(out).ok()?;
+    if o == s {
+        None
+    } else {
+        Some(o)
+    }
+}
+
+/// Re-encode one base64url JSON segment of a JWT (0 = header, 1 = payload) after editing it;
+/// the other segments (in particular the signature) are kept byte-for-byte.
+pub fn reencode_segment(jwt: &str, seg: usize, edit: impl FnOnce(&mut Value)) -> Option<String> {
+    let mut parts: Vec<String> = jwt.split('.').map(String::from).collect();
+    if parts.len() != 3 {
+        return None;
+    }
+    let mut v: Value = serde_json::from_slice(&b64d(&parts[seg]).ok()?).ok()?;
+    edit(&mut v);
+    parts[seg] = b64e(v.to_string().as_bytes());
+    let out = parts.join(".");
+    if out == jwt {
+        None
+    } else {
+        Some(out)
+    }
+}
+
+pub fn segments(jwt: &str) -> Option<[String; 3]> {
+    let p: Vec<&str> = jwt.split('.').collect();
+    if p.len() != 3 {
+        return None;
+    }
+    Some([p[0].to_string(), p[1].to_string(), p[2].to_string()])
+}
+
+/// Find every digest string inside a payload (entries of `_sd` arrays and `...` placeholders),
+/// as JSON pointer-like accessors; used to "change one digest".
+pub fn flip_first_digest(v: &mut Value) -> bool {
+    fn flip(s: &str) -> String {
+        let mut c: Vec<char> = s.chars().collect();
+        if let Some(x) = c.first_mut() {
+            *x = if *x == 'A' { 'B' } else { 'A' };
+        }
+        c.into_iter().collect()
+    }
+    match v {
+        Value::Object(m) => {
+            if let Some(Value::Array(a)) = m.get_mut("_sd") {
+                if let Some(Value::String(s)) = a.first_mut() {
+                    *s = flip(s);
+                    return true;
+                }
+            }
+            if m.len() == 1 {
+                if let Some(Value::String(s)) = m.get_mut("...") {
+                    *s = flip(s);
+                    return true;
+                }
+            }
+            for (_, c) in m.iter_mut() {
+                if flip_first_digest(c) {
+                    return true;
+                }
+            }
+            false
+        }
+        Value::Array(a) => a.iter_mut().any(flip_first_digest),
+        _ => false,
+    }
+}
+
+pub fn obj_mut(v: &mut Value) -> Option<&mut Map<String, Value>> {
+    v.as_object_mut()
+}
